@@ -39,6 +39,11 @@ def gen_case(seed, i):
         if m["ident"]:
             ids.add(m["ident"])
         m["scan"] = G.scan_part(r, len(recs))
+        if r.random() < 0.2:
+            # the member's own printing setting: standard out goes, what the csvpath prints stays
+            m["noprint"] = True
+            if "print(" not in m["match"]:
+                m["match"] += ' print("at $.csvpath.line_number")'
         members.append(m)
     case = {"recs": recs, "members": members, "if_all_agree": r.random() < 0.4, "perm": r.random() < 0.5}
     if i % 6 == 5:
@@ -54,6 +59,8 @@ def member_text(m, path=""):
         parts.append(f"id: {m['ident']}")
     if m.get("nomatch"):
         parts.append("return-mode: no-matches")
+    if m.get("noprint"):
+        parts.append("print-mode: no-default")
     c = ("~ " + " ".join(parts) + " ~ ") if parts else ""
     return f"{c}${path}[{m['scan']}][{m['match']}]"
 
